@@ -7,7 +7,9 @@ Streams
             step; after every step every query method at sampled positions is compared with a
             FRESH process (a child forked from a process that never parsed anything) that is
             given only the current text.  The proviso (incrementally parsed tree == from-scratch
-            parse) is checked per step; steps where parso violates it are counted, not reported.
+            parse) is checked per step on parso alone (same sequence of DiffParser updates on a tree
+            of our own); steps where parso violates it are counted, not reported.  A Script whose
+            module node is not the parse of its text although parso alone is right is reported.
             A difference is a failing history; it is shrunk by deleting steps.
   fresh-sub a sample of the fresh answers is recomputed in a brand-new interpreter process
             (validates the fork short-cut).
@@ -580,21 +582,35 @@ def _guard(f):
         return 'EXC:%s@%s' % (s['exc'], s['site'])
 
 
-def eval_text(jedi, text, path, root, positions, word, proviso=False):
+def _script(jedi, text, path, env):
+    kw = {}
+    if path:
+        kw['path'] = path
+    if env == 'interpreter':
+        # no helper process: compiled objects are inspected in this process (a documented choice of
+        # environment; most sessions use it because starting a helper per fresh child dominates the cost)
+        from jedi.api.environment import InterpreterEnvironment
+        kw['environment'] = InterpreterEnvironment()
+    return jedi.Script(text, **kw)
+
+
+def eval_text(jedi, text, path, root, positions, word, proviso=False, env='default'):
     """All answers for one text through ONE new Script."""
     ans = {}
     info = {}
     try:
-        script = jedi.Script(text, path=path) if path else jedi.Script(text)
+        script = _script(jedi, text, path, env)
     except Exception as e:
         s = common.exc_sig(e)
-        return dict(answers={'Script': 'EXC:%s@%s' % (s['exc'], s['site'])}, proviso=None)
+        return dict(answers={'Script': 'EXC:%s@%s' % (s['exc'], s['site'])}, tree_ok=None, _grammar=None)
     if proviso:
+        # is the module node of this Script the parse of its text?
         try:
             fresh = script._inference_state.grammar.parse(text)
-            info['proviso'] = _dump(script._module_node) == _dump(fresh) and script._module_node.get_code() == text
+            info['tree_ok'] = _dump(script._module_node) == _dump(fresh) and script._module_node.get_code() == text
+            info['grammar'] = script._inference_state.grammar
         except Exception as e:
-            info['proviso'] = None
+            info['tree_ok'] = None
     for (l, c) in positions:
         for m in POS_METHODS:
             ans['%s@%d,%d' % (m, l, c)] = _guard(lambda: _canon(m, getattr(script, m)(l, c), root))
@@ -606,7 +622,7 @@ def eval_text(jedi, text, path, root, positions, word, proviso=False):
                                                                 list(script.complete_search(word[:2])), root))
     ans['syntax_errors'] = _guard(lambda: [[e.line, e.column, e.until_line, e.until_column]
                                            for e in script.get_syntax_errors()])
-    return dict(answers=ans, proviso=info.get('proviso'))
+    return dict(answers=ans, tree_ok=info.get('tree_ok'), _grammar=info.get('grammar'))
 
 
 def _buf_path(root, buf):
@@ -684,25 +700,60 @@ def session_child(arg):
     state = dict(step=0, sig=[], path=None)
     _observe_signature_cache(state)
     out = []
+    shadow = {}
+    grammar = [None]
     steps = sess['steps'] if upto is None else sess['steps'][:upto + 1]
     for i, st in enumerate(steps):
         buf = sess['buffers'][st['buf']]
         clock.units += st.get('tick', 0)
-        state.update(step=i, sig=[], path=_buf_path(root, buf))
-        r = eval_text(jedi, st['text'], _buf_path(root, buf), root, [tuple(p) for p in st['positions']],
-                      st['word'], proviso=True)
+        path = _buf_path(root, buf)
+        state.update(step=i, sig=[], path=path)
+        r = eval_text(jedi, st['text'], path, root, [tuple(p) for p in st['positions']], st['word'], proviso=True,
+                      env=sess.get('env', 'default'))
+        grammar[0] = r.pop('_grammar', None) or grammar[0]
+        r['proviso'] = _shadow_step(shadow, path, grammar[0], st['text'])
         r['sig'] = state['sig']
         out.append(r)
     return out
 
 
+def _shadow_step(shadow, slot, grammar, text):
+    """The property's proviso, checked on parso ALONE: the same sequence of incremental parses that
+    the cache slot `slot` (a path, or None for all path-less buffers) sees, performed with parso's
+    diff parser on a tree of our own (no cache involved).  True = parso kept its promise at this step;
+    False = it did not (the step is excluded); None = unknown (no grammar yet)."""
+    if grammar is None:
+        return None
+    import parso
+    lines = parso.split_lines(text, keepends=True)
+    ent = shadow.get(slot)
+    if ent == 'tainted':
+        return False
+    try:
+        if ent is None:
+            mod = grammar.parse(text)
+        elif ent[1] == lines:
+            mod = ent[0]
+        else:
+            mod = grammar._diff_parser(grammar._pgen_grammar, grammar._tokenizer, ent[0]).update(
+                old_lines=ent[1], new_lines=lines)
+        shadow[slot] = (mod, lines)
+        return _dump(mod) == _dump(grammar.parse(text)) and mod.get_code() == text
+    except Exception:
+        shadow[slot] = 'tainted'
+        return False
+
+
 def fresh_child(arg):
     """Runs in a forked child that has never parsed anything: ONE text."""
-    text, path, root, positions, word = arg
+    text, path, root, positions, word = arg[:5]
+    env = arg[5] if len(arg) > 5 else 'default'
     jedi = _child_setup(os.path.join(root, 'cwd'))
     from jedi import cache as jcache
     jcache.time = _Clock()
-    return eval_text(jedi, text, path, root, [tuple(p) for p in positions], word)
+    r = eval_text(jedi, text, path, root, [tuple(p) for p in positions], word, env=env)
+    r.pop('_grammar', None)
+    return r
 
 
 FRESH_SUB = r'''
@@ -711,15 +762,15 @@ sys.path.insert(0, %(harness)r)
 import common, c08
 arg = json.loads(sys.stdin.read())
 common.setup_jedi(arg['cache'])
-r = c08.fresh_child((arg['text'], arg['path'], arg['root'], arg['positions'], arg['word']))
+r = c08.fresh_child((arg['text'], arg['path'], arg['root'], arg['positions'], arg['word'], arg['env']))
 sys.stdout.write('\n@@RESULT@@' + json.dumps(r))
 '''
 
 
-def fresh_subprocess(text, path, root, positions, word, cache):
+def fresh_subprocess(text, path, root, positions, word, env, cache):
     p = subprocess.run([common.PY, '-c', FRESH_SUB % dict(harness=os.path.dirname(os.path.abspath(__file__)))],
                        input=json.dumps(dict(text=text, path=path, root=root, positions=positions, word=word,
-                                             cache=cache)),
+                                             env=env, cache=cache)),
                        text=True, capture_output=True, timeout=1200, env=common.jedi_env(), cwd=root)
     if '@@RESULT@@' not in p.stdout:
         raise RuntimeError('fresh interpreter failed: ' + (p.stderr or p.stdout)[-800:])
@@ -913,18 +964,20 @@ def mini_session(sess, i, key, obs):
     steps = [dict(buf=st_j['buf'], kind='origin', text=st_j['text'], positions=[obs['origin_pos']], word=st_j['word'], tick=0),
              dict(buf=st_i['buf'], kind='stale', text=st_i['text'], positions=[[int(m.group(2)), int(m.group(3))]],
                   word=st_i['word'], tick=0)]
-    return dict(mode=sess['mode'], buffers=sess['buffers'], steps=steps)
+    return dict(mode=sess['mode'], env=sess.get('env', 'default'), buffers=sess['buffers'], steps=steps)
 
 
 def stream_history(ctx):
     corpus = _corpus_chunks()
     ctx.stat('corpus_chunks', len(corpus))
-    nsess = _scaled(ctx.n(36, 400))
+    nsess = _scaled(ctx.n(28, 320))
     sessions = [gen_session(ctx.rng, i, corpus) for i in range(nsess)]
     # a few fixed, directed sessions first (seed independent): the classic stale-cache makers
     sessions = directed_sessions() + sessions
     for i, s in enumerate(sessions):
         s['id'] = i
+        # the default environment (helper process) for the directed sessions and every fourth seeded one
+        s['env'] = 'default' if i < len(directed_sessions()) or i % 4 == 0 else 'interpreter'
     root_of = {}
     items = []
     fresh_tasks = {}
@@ -936,10 +989,10 @@ def stream_history(ctx):
         items.append(('session', (s, root, None)))
         for st in s['steps']:
             path = _buf_path(root, s['buffers'][st['buf']])
-            fk = _fresh_key(st['text'], path, st['positions'], st['word'])
+            fk = _fresh_key(st['text'], path, st['positions'], st['word'] + '/' + s['env'])
             st['_fk'] = fk
             if fk not in fresh_tasks:
-                fresh_tasks[fk] = (st['text'], path, root, st['positions'], st['word'])
+                fresh_tasks[fk] = (st['text'], path, root, st['positions'], st['word'], s['env'])
     fkeys = sorted(fresh_tasks)
     items += [('fresh', fresh_tasks[k]) for k in fkeys]
     # longest jobs first
@@ -979,6 +1032,13 @@ def stream_history(ctx):
             if sr['proviso'] is False:
                 n_excl += 1
                 continue
+            if sr.get('tree_ok') is False:
+                # parso alone parses this step correctly, yet the Script works on another tree
+                ctx.deviation(dict(stream='history', cls='module-node-is-not-the-parse-of-the-text',
+                                   mode=s['buffers'][st['buf']]['mode']),
+                              dict(session=_strip(dict(s, steps=s['steps'][:i + 1])), step=i),
+                              'Script._module_node after this history is not the tree of the current text although '
+                              'parso\'s incremental parser, run alone on the same sequence, yields it')
             nq = len(sr['answers'])
             n_q += nq
             n_exc += sum(1 for v in sr['answers'].values() if isinstance(v, str) and v.startswith('EXC:'))
@@ -1012,6 +1072,7 @@ def stream_history(ctx):
             failing.append((s, (i0, [(k, hv, fv) for (i, k, hv, fv) in u if i == i0])))
     ctx.stat('history_sessions', len(sessions))
     ctx.stat('history_modes', modes)
+    ctx.stat('history_environments', {e: sum(1 for x in sessions if x['env'] == e) for e in ('default', 'interpreter')})
     ctx.stat('history_steps', n_steps)
     ctx.stat('history_edit_kinds', kinds)
     ctx.stat('history_steps_excluded_parso_proviso', n_excl)
@@ -1049,7 +1110,7 @@ def stream_history(ctx):
     def one(k):
         t = fresh_tasks[k]
         try:
-            return k, fresh_subprocess(t[0], t[1], t[2], t[3], t[4], os.path.join(ctx.tmp, 'subcache_' + k[:8])), None
+            return k, fresh_subprocess(t[0], t[1], t[2], t[3], t[4], t[5], os.path.join(ctx.tmp, 'subcache_' + k[:8])), None
         except Exception as e:
             return k, None, repr(e)
     from concurrent.futures import ThreadPoolExecutor
@@ -1069,7 +1130,7 @@ def stream_history(ctx):
 
 
 def _strip(s):
-    return dict(mode=s['mode'], buffers=s['buffers'],
+    return dict(mode=s['mode'], env=s.get('env', 'default'), buffers=s['buffers'],
                 steps=[{k: v for k, v in st.items() if not k.startswith('_')} for st in s['steps']])
 
 
@@ -1358,7 +1419,7 @@ MODEL_CFGS = {
 
 def stream_trace(ctx):
     corpus = _corpus_chunks()
-    n = _scaled(ctx.n(20, 160))
+    n = _scaled(ctx.n(14, 120))
     sessions = [gen_trace_session(ctx.rng, i, corpus) for i in range(n)]
     items = []
     for i, (s, tracked) in enumerate(sessions):
@@ -1474,7 +1535,7 @@ def replay(ctx, path):
     r = forked_call(session_child, (sess, root, None))
     last = sess['steps'][-1]
     f = forked_call(fresh_child, (last['text'], _buf_path(root, sess['buffers'][last['buf']]), root, last['positions'],
-                                  last['word']))
+                                  last['word'], sess.get('env', 'default')))
     key = rec['query']
     if r[0] == 'ok' and f[0] == 'ok':
         print('query                   :', key)
